@@ -23,12 +23,15 @@ import (
 	"fmt"
 	"io"
 	"os"
+	"sort"
+	"strconv"
 	"strings"
 
 	"github.com/robfig/soy"
 	"github.com/robfig/soy/ast"
 	"github.com/robfig/soy/data"
 	"github.com/robfig/soy/soyhtml"
+	"github.com/robfig/soy/soyjs"
 	"github.com/robfig/soy/soymsg"
 	"github.com/robfig/soy/template"
 	"soyverif/internal/hx"
@@ -99,33 +102,123 @@ func execInto(tofu *soyhtml.Tofu, name string, d data.Map, w io.Writer, msgs soy
 	return r.Execute(w, d)
 }
 
-// c12Msgs is a "translation" of every plural-free message of a registry: the source parts behind a marker,
-// so that rendering goes through evalMsgParts (exec.go:396-403, its own checked write).
-type c12Msgs map[uint64]*soymsg.Message
+// c12Msgs is a message bundle that HAS a translation of every message of a registry (flat and {plural}), so
+// that rendering goes through evalMsg -> evalMsgParts (its own checked writes, the recursive call for the
+// selected plural form, the placeholders walked from inside a translation).  Three styles:
+//
+//	0 identity   the source parts in source order; every plural form = the parts of one source case
+//	1 reordered  the parts in reverse order between a raw-text head and tail (a placeholder is no longer
+//	             where the source has it; text before the first and after the last placeholder)
+//	2 tail       the source parts followed by raw text (the translation ends in text after its last
+//	             placeholder: a refused write there is the last thing the message does)
+//
+// A plural translation has c12Forms forms, selected by PluralCase(n) = |n| mod c12Forms; form i is built from
+// the i-th explicit case of the source (its placeholders are reachable through MsgNode.Placeholder) or from
+// the default case.
+const c12Forms = 3
+const c12PluralTable = 1000 // PluralCase is |n| mod c12Forms for |n| <= this, 0 beyond
 
-func (b c12Msgs) Locale() string                    { return "xx" }
-func (b c12Msgs) Message(id uint64) *soymsg.Message { return b[id] }
-func (b c12Msgs) PluralCase(n int) int              { return 0 }
+type c12Msgs struct {
+	msgs  map[uint64]*soymsg.Message
+	style int
+}
 
-func c12Translate(reg *template.Registry) c12Msgs {
-	out := c12Msgs{}
+func (b *c12Msgs) Locale() string                    { return "xx" }
+func (b *c12Msgs) Message(id uint64) *soymsg.Message { return b.msgs[id] }
+func (b *c12Msgs) PluralCase(n int) int {
+	if n < -c12PluralTable || n > c12PluralTable {
+		return 0 // outside the table the model is given (ops_interpext.ml render_msgs): the default
+	}
+	if n < 0 {
+		n = -n
+	}
+	return n % c12Forms
+}
+
+// c12PartsSexp: the parts of a translation as the nodes Model/Interp.v's msg_bundle holds (raw text, NIdent =
+// placeholder name, NMsgPlural var _ forms _ with one NMsgPluralCase per form)
+func c12PartsSexp(parts []soymsg.Part) string {
+	var out []string
+	for _, p := range parts {
+		switch p := p.(type) {
+		case soymsg.RawTextPart:
+			out = append(out, sp("raw", "0", sx(p.Text)))
+		case soymsg.PlaceholderPart:
+			out = append(out, sp("ident", "0", sx(p.Name)))
+		case soymsg.PluralPart:
+			var forms []string
+			for _, c := range p.Cases {
+				forms = append(forms, sp("pcase", "0", "0", "("+c12PartsSexp(c.Parts)+")"))
+			}
+			out = append(out, sp("plural", "0", sx(p.VarName), sp("null", "0"), "("+strings.Join(forms, " ")+")", "()"))
+		}
+	}
+	return strings.Join(out, " ")
+}
+
+func c12BundleSexp(b *c12Msgs) string {
+	var ids []uint64
+	for id := range b.msgs {
+		ids = append(ids, id)
+	}
+	sort.Slice(ids, func(i, j int) bool { return ids[i] < ids[j] })
+	var ms []string
+	for _, id := range ids {
+		ms = append(ms, "("+strconv.FormatUint(id, 10)+" "+c12PartsSexp(b.msgs[id].Parts)+")")
+	}
+	return "(bundle " + strings.Join(ms, " ") + ")"
+}
+
+func c12Parts(children []ast.Node, style int, tag string) []soymsg.Part {
+	var parts []soymsg.Part
+	for _, c := range children {
+		switch c := c.(type) {
+		case *ast.RawTextNode:
+			parts = append(parts, soymsg.RawTextPart{Text: string(c.Text)})
+		case *ast.MsgPlaceholderNode:
+			parts = append(parts, soymsg.PlaceholderPart{Name: c.Name})
+		case *ast.MsgPluralNode:
+			pp := soymsg.PluralPart{VarName: c.VarName}
+			for i := 0; i < c12Forms; i++ {
+				body := c.Default.Children()
+				if i < len(c.Cases) {
+					body = c.Cases[i].Body.Children()
+				}
+				pp.Cases = append(pp.Cases, soymsg.PluralCase{Spec: soymsg.PluralSpec{Type: soymsg.PluralSpecOther},
+					Parts: c12Parts(body, style, fmt.Sprintf("%s.f%d", tag, i))})
+			}
+			return []soymsg.Part{pp} // a plural is the whole message
+		}
+	}
+	switch style {
+	case 1:
+		rev := []soymsg.Part{soymsg.RawTextPart{Text: "[" + tag + ":"}}
+		for i := len(parts) - 1; i >= 0; i-- {
+			rev = append(rev, parts[i])
+		}
+		return append(rev, soymsg.RawTextPart{Text: "]"})
+	case 2:
+		return append(parts, soymsg.RawTextPart{Text: " ~" + tag})
+	}
+	return parts
+}
+
+// c12Translate returns the bundle of the given style and whether the registry has a {plural} message.
+func c12Translate(reg *template.Registry, style int) (*c12Msgs, bool) {
+	out := &c12Msgs{msgs: map[uint64]*soymsg.Message{}, style: style}
+	plural := false
 	var visit func(n ast.Node)
 	visit = func(n ast.Node) {
 		if n == nil {
 			return
 		}
 		if m, ok := n.(*ast.MsgNode); ok {
-			plural := false
 			for _, c := range m.Body.Children() {
 				if _, ok := c.(*ast.MsgPluralNode); ok {
 					plural = true
 				}
 			}
-			if !plural {
-				msg := soymsg.NewMessage(m.ID, soymsg.PlaceholderString(m))
-				msg.Parts = append([]soymsg.Part{soymsg.RawTextPart{Text: "[tr]"}}, msg.Parts...)
-				out[m.ID] = msg
-			}
+			out.msgs[m.ID] = &soymsg.Message{ID: m.ID, Parts: c12Parts(m.Body.Children(), style, "tr")}
 		}
 		if p, ok := n.(ast.ParentNode); ok {
 			for _, c := range p.Children() {
@@ -136,7 +229,7 @@ func c12Translate(reg *template.Registry) c12Msgs {
 	for _, f := range reg.SoyFiles {
 		visit(f)
 	}
-	return out
+	return out, plural
 }
 
 type c12Case struct {
@@ -145,10 +238,11 @@ type c12Case struct {
 	Data     string    `json:"data"`
 	Fault    string    `json:"fault"` // "none" | "call:<k>:sticky" | "call:<k>:transient" | "bytes:<b>"
 	Msgs     bool      `json:"with_message_bundle,omitempty"`
+	Style    int       `json:"bundle_style,omitempty"` // c12Msgs.style
 }
 
 func runC12(e *env) {
-	e.res.Rule = "bundles from the command grammar (gen_prog.go: depth<=3, 1-5 templates, all call forms, print directives, msg/plural, let/foreach/for/if/switch, css, log) x 2 data sets (a quarter of the bundles with ill-typed operands, so that the fault-free run itself errors half-way). Per render: the fault-free run against a recording writer, then EXHAUSTIVELY a writer failing Write call k for every k in 0..#calls (sticky and transient) and a short-capacity writer for every byte budget 0..len(output). Oracle on the implementation: fault injected => err != nil and accepted bytes are a prefix of the fault-free output; err == nil => output complete. Model (Interp.render with calls_left/bytes_left) vs implementation on (error?, accepted bytes) for every injection and on the fault-free Write call sequence. Non-trivial = the fault-free run makes at least 2 Write calls; distinct by source text + data."
+	e.res.Rule = "bundles from the command grammar (gen_prog.go: depth<=3, 1-5 templates, all call forms, print directives, msg/plural, let/foreach/for/if/switch, css, log) x 2 data sets (a quarter of the bundles with ill-typed operands, so that the fault-free run itself errors half-way). Per render: the fault-free run against a recording writer, then EXHAUSTIVELY a writer failing Write call k for every k in 0..#calls (sticky and transient) and a short-capacity writer for every byte budget 0..len(output). Oracle on the implementation: fault injected => err != nil and accepted bytes are a prefix of the fault-free output; err == nil => output complete. Model (Interp.render with calls_left/bytes_left) vs implementation on (error?, accepted bytes) for every injection and on the fault-free Write call sequence. Every bundle that contains a {msg} is swept three more times through Renderer.WithMessages with a soymsg.Bundle that TRANSLATES every message (identity / parts reordered between text / text after the last placeholder; {plural} messages as a PluralPart with 3 forms selected by n mod 3): oracle only, the model renders without a bundle. JavaScript-side counterpart (stream js-write): soyjs.Write of every file of every bundle (ES5 and ES6 formatters) against a writer failing each of its Write calls (sticky and transient) and against short-capacity writers; same oracle (error returned, accepted bytes a prefix, nil only if complete). Non-trivial = the fault-free run makes at least 2 Write calls (js-write: 2 non-empty ones); distinct by source text + data."
 	e.res.Exhaustive = true
 	if e.replay != "" {
 		c12Replay(e)
@@ -170,9 +264,19 @@ func runC12(e *env) {
 		// message parts at the very end of the file: their positions must stay inside the source
 		// (errRecover slices the source at the failing node's position)
 		{"{msg desc=\"d\"}Hello <b>{$x}</b>, this is <i>long</i> <a href=\"x\">enough</a>{/msg}", data.Map{"x": data.String("w")}},
+		// messages rendered through a translation (the bundle sweeps of c12Bundle): placeholders before, inside and
+		// after text; a plural as the last output of the render, with text after the last placeholder of a form;
+		// every plural form (PluralCase = n mod 3); output after the message
+		{"{msg desc=\"d\"}{$x} before, in {$n} side, after {$x}{/msg}", data.Map{"x": data.String("<w>"), "n": data.Int(2)}},
+		{"{msg desc=\"d\"}{plural $n}{case 0}none for {$x}{case 1}one <b>{$x}</b> item{default}{$n} items for {$x} here{/plural}{/msg}", data.Map{"x": data.String("u"), "n": data.Int(0)}},
+		{"{msg desc=\"d\"}{plural $n}{case 0}none for {$x}{case 1}one <b>{$x}</b> item{default}{$n} items for {$x} here{/plural}{/msg}", data.Map{"x": data.String("u"), "n": data.Int(1)}},
+		{"{msg desc=\"d\"}{plural $n}{case 0}none for {$x}{case 1}one <b>{$x}</b> item{default}{$n} items for {$x} here{/plural}{/msg}", data.Map{"x": data.String("u"), "n": data.Int(5)}},
+		{"a{msg desc=\"d\"}{plural $n}{case 1}one{default}{$n} Benutzer sind da{/plural}{/msg}{$x}z", data.Map{"x": data.String("&"), "n": data.Int(7)}},
+		{"{msg desc=\"d\"}{plural $n}{default}many{/plural}{/msg}", data.Map{"x": data.String(""), "n": data.Int(4)}},
+		{"{msg desc=\"d\"}{plural $x}{default}many{/plural}{/msg}", data.Map{"x": data.String("not a number"), "n": data.Int(4)}},
 	}
 	for j, f := range fixed {
-		files := []srcFile{{"fixed.soy", "{namespace fx}\n\n/**\n * @param x\n */\n{template .t}\n" + f.body + "\n{/template}\n"}}
+		files := []srcFile{{"fixed.soy", "{namespace fx}\n\n/**\n * @param x\n * @param? n\n */\n{template .t}\n" + f.body + "\n{/template}\n"}}
 		c12Bundle(e, fmt.Sprintf("fx%d", j), files, "fx.t", []data.Map{f.d}, j == 0)
 	}
 	n := 400 * e.scale
@@ -199,6 +303,7 @@ func c12Bundle(e *env, key string, files []srcFile, entry string, dataSets []dat
 		e.res.Histogram["compile-errors"]++
 		return
 	}
+	c12JsWrite(e, key, files, reg)
 	tofu := soyhtml.NewTofu(reg)
 	ids := newIDTable()
 	modelOK := true
@@ -206,13 +311,124 @@ func c12Bundle(e *env, key string, files []srcFile, entry string, dataSets []dat
 		e.res.Fail(hx.Violation{Kind: "mismatch", What: "model cannot load the registry", Case: c12Case{Files: files, Template: entry}, Observed: fmt.Sprint(r)}, "")
 		modelOK = false
 	}
-	msgs := c12Translate(reg)
 	for _, d := range dataSets {
 		dsx := valueSexp(d, ids)
 		c12Render(e, key, tofu, files, entry, d, dsx, modelOK, sample, nil)
-		if len(msgs) > 0 {
-			// the same sweep with a message bundle: oracle only (the model renders without one)
-			c12Render(e, key, tofu, files, entry, d, dsx, false, false, msgs)
+		for style := 0; style < 3; style++ {
+			msgs, plural := c12Translate(reg, style)
+			if len(msgs.msgs) == 0 {
+				break
+			}
+			// the same sweep with a message bundle that translates every message; the model is the extended
+			// walker of Model/InterpExt.v (evalMsg through a translation), op render_msgs
+			if plural {
+				e.res.Histogram["bundle-renders-with-plural-translation"]++
+			}
+			c12Render(e, key, tofu, files, entry, d, dsx, modelOK, false, msgs)
+		}
+	}
+}
+
+// ---- the JavaScript-side counterpart: soyjs.Write on a failing writer ----
+//
+// soyjs.Write generates into memory and hands the writer two Write calls (the import block, the script).  For
+// every file of the bundle, ES5 and ES6: the fault-free run against a recording writer, then a failure at every
+// Write call index (sticky and transient) and every byte budget.  Oracle: the writer refused something => Write
+// returns an error; accepted bytes are a prefix of the fault-free script; nil => complete.  Not a render in the
+// sense of the property's text: recorded under the finding key js-write-drops-writer-errors while /repo's
+// soyjs.Write ignores the result of out.Write (notes/pending/C12-js-write-errors.diff).
+const c12FindingJsWrite = "js-write-drops-writer-errors"
+
+type c12JsCase struct {
+	Files  []srcFile `json:"files"`
+	File   string    `json:"file"`
+	Format string    `json:"formatter"`
+	Fault  string    `json:"fault"`
+}
+
+func c12JsInto(reg *template.Registry, i int, es6 bool, w io.Writer) (err error) {
+	defer func() {
+		if r := recover(); r != nil {
+			err = fmt.Errorf("PANIC: %v", r)
+		}
+	}()
+	var o soyjs.Options
+	if es6 {
+		o.Formatter = soyjs.ES6Formatter{}
+	}
+	return soyjs.Write(w, reg.SoyFiles[i], o)
+}
+
+func c12JsWrite(e *env, key string, files []srcFile, reg *template.Registry) {
+	for i, sf := range reg.SoyFiles {
+		for _, es6 := range []bool{false, true} {
+			format := "ES5"
+			if es6 {
+				format = "ES6"
+			}
+			mk := func(fault string) c12JsCase {
+				return c12JsCase{Files: files, File: sf.Name, Format: format, Fault: fault}
+			}
+			rec := &recWriter{}
+			err0 := c12JsInto(reg, i, es6, rec)
+			if err0 != nil {
+				e.res.Histogram["js-write:generation-errors"]++ // C14's business (unimplemented functions ...)
+				continue
+			}
+			var out0 []byte
+			nonempty := 0
+			for _, c := range rec.calls {
+				out0 = append(out0, c...)
+				if len(c) > 0 {
+					nonempty++
+				}
+			}
+			e.res.Count("js:"+format+sf.Name+fmt.Sprint(files), nonempty >= 2, "js-write")
+			e.res.Histogram["js-write:write-calls"] += len(rec.calls)
+			type inj struct {
+				fault    string
+				err      error
+				acc      []byte
+				injected bool
+			}
+			var injs []inj
+			for k := 0; k <= len(rec.calls); k++ {
+				for _, sticky := range []bool{true, false} {
+					w := &failAt{k: k, sticky: sticky}
+					err := c12JsInto(reg, i, es6, w)
+					mode := "transient"
+					if sticky {
+						mode = "sticky"
+					}
+					injs = append(injs, inj{fmt.Sprintf("call:%d:%s", k, mode), err, w.acc, w.failed})
+				}
+			}
+			step := 1
+			if len(out0) > 400 {
+				step = len(out0) / 200 // every byte budget of a long script is the same two cases over and over
+			}
+			for bb := 0; bb <= len(out0); bb += step {
+				w := &shortCap{left: bb}
+				err := c12JsInto(reg, i, es6, w)
+				injs = append(injs, inj{fmt.Sprintf("bytes:%d", bb), err, w.acc, w.failed})
+			}
+			for _, in := range injs {
+				e.res.Histogram["js-write:injections"]++
+				switch {
+				case isPanicErr(in.err):
+					e.res.Fail(hx.Violation{Kind: "oracle", What: "soyjs.Write panicked on a failing writer", Case: mk(in.fault), Observed: errStr(in.err)}, "")
+				case in.injected && in.err == nil:
+					e.res.Fail(hx.Violation{Kind: "oracle", What: "the writer returned an error and soyjs.Write returned nil", Case: mk(in.fault),
+						Expected: "a non-nil error", Observed: fmt.Sprintf("nil; accepted %d of %d bytes", len(in.acc), len(out0))}, c12FindingJsWrite)
+				case !bytes.HasPrefix(out0, in.acc):
+					e.res.Fail(hx.Violation{Kind: "oracle", What: "the bytes accepted from soyjs.Write by the failing writer are not a prefix of the fault-free script", Case: mk(in.fault),
+						Expected: "a prefix of the fault-free script", Observed: hx.Q(string(in.acc))}, c12FindingJsWrite)
+				case in.err == nil && !bytes.Equal(in.acc, out0):
+					e.res.Fail(hx.Violation{Kind: "oracle", What: "soyjs.Write returned nil although not every byte of the script was accepted", Case: mk(in.fault)}, c12FindingJsWrite)
+				case !in.injected && in.err != nil:
+					e.res.Fail(hx.Violation{Kind: "oracle", What: "a writer that never failed made soyjs.Write fail", Case: mk(in.fault), Observed: errStr(in.err)}, "")
+				}
+			}
 		}
 	}
 }
@@ -227,7 +443,11 @@ type c12Inj struct {
 
 func c12Render(e *env, key string, tofu *soyhtml.Tofu, files []srcFile, entry string, d data.Map, dsx string, modelOK bool, sample bool, msgs soymsg.Bundle) {
 	mk := func(fault string) c12Case {
-		return c12Case{Files: files, Template: entry, Data: dsx, Fault: fault, Msgs: msgs != nil}
+		c := c12Case{Files: files, Template: entry, Data: dsx, Fault: fault, Msgs: msgs != nil}
+		if b, ok := msgs.(*c12Msgs); ok {
+			c.Style = b.style
+		}
+		return c
 	}
 	rec := &recWriter{}
 	err0 := execInto(tofu, entry, d, rec, msgs)
@@ -310,7 +530,15 @@ func c12Render(e *env, key string, tofu *soyhtml.Tofu, files []srcFile, entry st
 	if !modelOK || isPanicErr(err0) {
 		return
 	}
+	bsx := ""
+	if b, ok := msgs.(*c12Msgs); ok {
+		bsx = c12BundleSexp(b)
+		e.res.Histogram["model:render_msgs"]++
+	}
 	req := func(cl, bl string) string {
+		if bsx != "" {
+			return strings.Join([]string{"render_msgs", key, sx(entry), "#4000", cl, bl, bsx, ";", dsx}, " ")
+		}
 		return strings.Join([]string{"render", key, sx(entry), "#4000", cl, bl, "-", "none", ";", dsx}, " ")
 	}
 	reqs := []string{req("none", "none")}
